@@ -529,7 +529,9 @@ class CFG:
             elif isinstance(s, (ast.If, ast.While)) and not (self.split and self._is_compound_test(s.test)):
                 test = s.test
             if test is not None:
-                vt, vf = truth_on_branch(self._resolve_flags(test), atom)
+                vt, vf = truth_on_branch(test, atom)
+                if vt is None and vf is None:
+                    vt, vf = truth_on_branch(self._resolve_flags(test), atom)
                 for (y, lab) in self.succ[n]:
                     if lab == 'T' and vt is value:
                         out.append((n, y, lab))
@@ -587,7 +589,11 @@ class CFG:
             ok = all(x.id in prm or stores[x.id] <= 1 for x in ast.walk(v) if isinstance(x, ast.Name))
             attrs = {ast.dump(x) for x in ast.walk(v) if isinstance(x, ast.Attribute)}
             for w in ast.walk(fn):
-                if isinstance(w, ast.Attribute) and isinstance(w.ctx, (ast.Store, ast.Del)):
+                # a write to such an attribute, or a method call on it (self.x.add(..), self.x.pop(..): it may change what the test saw)
+                mut = isinstance(w, ast.Attribute) and isinstance(w.ctx, (ast.Store, ast.Del))
+                if isinstance(w, ast.Call) and isinstance(w.func, ast.Attribute) and ast.dump(w.func.value) in attrs:
+                    mut, w = True, w.func.value
+                if mut:
                     d = ast.dump(w).replace("Store()", "Load()").replace("Del()", "Load()")
                     if d in attrs:
                         under = False
